@@ -743,6 +743,21 @@ class Typer:
           raise AnalysisError(f"typing: cannot type {key[:60]}")
         inner |= self._type_of(e, narrow)
       return frozenset([("seq", inner)])
+    if isinstance(expr, ast.Call) and isinstance(expr.func, ast.Attribute) and \
+        expr.func.attr == "with_changes" and not expr.args:
+      # libcst's CSTNode.with_changes is dataclasses.replace: a node of the receiver's class
+      recv = self._type_of(expr.func.value, narrow) - {"None"}
+      if recv and all(isinstance(a, str) and a in self.model.classes for a in recv):
+        return recv
+    if isinstance(expr, ast.Subscript) and isinstance(expr.ctx, ast.Load) and \
+        not isinstance(expr.slice, ast.Slice):
+      # an element of a sequence-typed value (the index itself is not judged)
+      seq = self._type_of(expr.value, narrow) - {"None"}
+      if seq and all(isinstance(a, tuple) and a[0] == "seq" for a in seq):
+        out = frozenset()
+        for a in seq:
+          out |= a[1]
+        return out
     if isinstance(expr, ast.ListComp) and self.rd is not None:
       # (the comprehension's own `if` clauses narrow nothing here: wider type)
       return frozenset([("seq", self._type_of(expr.elt, self.narrow_at(expr.elt)))])
